@@ -156,4 +156,13 @@ def main(argv):
         if diffs:
             print("  mismatching run indices: %s" % sorted(set(diffs))[:20])
             bad += 1
+        if eng.prop == "C15":
+            # the probes must be able to tell the members of every confusable pair of the family apart by BEHAVIOUR
+            # (their generated code may well be identical: the difference then lives in a field object)
+            from . import cachesim
+            fam = {v: eng.twin("defs", cachesim.defs_text([("Foo", v)]))[0][0] for v in cachesim.VNAMES}
+            pairs = [(a_, b_) for g in cachesim.MUST_DIFFER for a_ in g for b_ in g if a_ < b_]
+            same = [pr for pr in pairs if fam[pr[0]] == fam[pr[1]]]
+            print("selftest probes C15/C16: %d confusable pairs of declarations, %d the behaviour probes cannot tell apart %s" % (len(pairs), len(same), same or ""))
+            bad += bool(same)
     return 2 if bad else 0
